@@ -136,6 +136,13 @@ def region_aggregates(f, region, adt_suffix=None):
             if st["k"] == "assign" and st["rv"]["k"] == "agg" and st["rv"].get("agg") == "adt":
                 if adt_suffix is None or st["rv"]["adt"].endswith(adt_suffix):
                     out.append((b, st))
+            # a named constant of the crate is read as the aggregate it is defined as
+            elif st["k"] == "assign" and st["rv"]["k"] == "use" and isinstance(st["rv"].get("op"), dict) and isinstance(st["rv"]["op"].get("const"), str):
+                c = f.prog.fn(st["rv"]["op"]["const"])
+                if c is not None and c.kind in ("Const", "AssocConst", "Static"):
+                    inner = [s2 for _, _, s2 in c.stmts() if s2["k"] == "assign" and s2["place"]["l"] == 0 and not s2["place"]["p"] and s2["rv"]["k"] == "agg" and s2["rv"].get("agg") == "adt"]
+                    if len(inner) == 1 and (adt_suffix is None or inner[0]["rv"]["adt"].endswith(adt_suffix)):
+                        out.append((b, {"k": "assign", "place": st["place"], "rv": inner[0]["rv"], "span": st["span"]}))
     return out
 
 
